@@ -6,32 +6,34 @@ import (
 	"github.com/freeconf/yang/node"
 	"github.com/freeconf/yang/nodeutil"
 	"github.com/freeconf/yang/parser"
+	"github.com/freeconf/yang/xpath"
 )
-
-func try(name string, f func() string) {
-	defer func() {
-		if r := recover(); r != nil {
-			fmt.Printf("%-30s PANIC %v\n", name, r)
-		}
-	}()
-	fmt.Printf("%-30s %s\n", name, f())
-}
 
 func main() {
 	y := `module k { namespace "urn:k"; prefix k; revision 0;
-	choice top { leaf t1 {type string;} leaf t2 {type string;} }
-	container k { choice ch { case a { leaf x {type string;} choice in { leaf p {type string;} leaf q {type string;} } } case b { leaf y {type string;} } } }
-	container s { config false; choice sc { leaf s1 { type string; } leaf s2 { type string; } } } }`
+	leaf u8 {type uint8;} leaf i8 {type int8;} leaf i32 {type int32;} leaf u32 { type uint32; } leaf u64 { type uint64; } leaf i64 { type int64; }
+	leaf d1 { type decimal64 { fraction-digits 1; } } leaf e { type enumeration { enum a; enum b; enum c { value 10; } } } leaf s { type string; } leaf bo { type boolean; } }`
 	m, err := parser.LoadModuleFromString(nil, y)
 	if err != nil {
 		panic(err)
 	}
-	mk := func() *node.Browser {
-		local := nodeutil.ReflectChild(map[string]interface{}{"t2": "T", "k": map[string]interface{}{"x": "1", "p": "2"}})
-		remote := nodeutil.ReflectChild(map[string]interface{}{"s": map[string]interface{}{"s2": "S"}})
-		return node.NewBrowser(m, nodeutil.ConfigProxy{}.Node(local, remote))
+	n, _ := nodeutil.ReadJSON(`{"u8":200,"i8":-5,"i32":2,"u32":7,"u64":9,"i64":-3,"d1":2.5,"e":"c","s":"abc","bo":true}`)
+	b := node.NewBrowser(m, n)
+	for _, e := range []string{"u8<300", "u8<256", "u8>-1", "u8=256", "u8!=256", "i8>-129", "i32<3000000000", "u32>-1", "u32<4294967296", "u64>-1", "i64<9223372036854775808", "i64>-9223372036854775809", "u64<18446744073709551616",
+		"i32<2.5", "i32>1.5", "i32=2.0", "i32=2.5", "u8>199.5", "d1>2", "d1<3", "d1=2.5", "d1=2.50", "e='10'", "e='zz'", "e='c'", "e!='zz'", "e=10", "s=5", "s='abc'", "bo='true'", "bo=1", "bo='yes'", "i32='2'", "i32='x'"} {
+		p, err := xpath.Parse(e)
+		if err != nil {
+			fmt.Printf("%-30s parse error %v\n", e, err)
+			continue
+		}
+		func() {
+			defer func() {
+				if r := recover(); r != nil {
+					fmt.Printf("%-30s PANIC %v\n", e, r)
+				}
+			}()
+			ok, err := b.Root().XPredicate(p)
+			fmt.Printf("%-30s %v %v\n", e, ok, err)
+		}()
 	}
-	try("root", func() string { return fmt.Sprint(nodeutil.WriteJSON(mk().Root())) })
-	try("k", func() string { s, _ := mk().Root().Find("k"); return fmt.Sprint(nodeutil.WriteJSON(s)) })
-	try("s", func() string { s, _ := mk().Root().Find("s"); return fmt.Sprint(nodeutil.WriteJSON(s)) })
 }
